@@ -25,12 +25,14 @@ V3 = (0.0, 1.0, 2.0)
 ALPHA = {
     "V3x2F": [(a, b, f) for a in V3 for b in V3 for f in (False, True)],
     "B3": [(a, b, c, True) for a in (0.0, 1.0) for b in (0.0, 1.0) for c in (0.0, 1.0)],
+    # costs differing by 1e-10: mutually non-dominated near-ties are distinct members, near-dominated ones are evicted
+    "NEAR": [(a, b, True) for a in (1.0, 1.0 + 1e-10, 1.0 - 1e-10) for b in (2.0, 2.0 + 1e-10, 2.0 - 1e-10)],
     # thorough only
     "V4x2": [(a, b, True) for a in (0.0, 1.0, 2.0, 3.0) for b in (0.0, 1.0, 2.0, 3.0)],
     "B3F": [(a, b, c, f) for a in (0.0, 1.0) for b in (0.0, 1.0) for c in (0.0, 1.0) for f in (False, True)],
     "T3": [(a, b, c, True) for a in V3 for b in V3 for c in V3],
 }
-QUICK_ALPHA = ("V3x2F", "B3")
+QUICK_ALPHA = ("V3x2F", "B3", "NEAR")
 STATE_CAP = 400000
 COMPARATORS = {"pareto": None, "eps01": [0.1, 0.1], "eps05": 0.5}
 
